@@ -28,6 +28,10 @@ TABLE = {
                 text="For every poset in bounds every presentation: the lattice the real compiler reconstructs (covariant sets, direct bases), slot disjointness, dispatch and next all equal the model's.", ref="3/C08"),
     "C10": dict(engine="E1 regx", technique="bounded-exhaustive exploration of the same registries under six RTTI flavours (std, integer, many-to-one projection with/without hash, deferred with/without hash), all alias assignments, second update; reference model + cross-flavour digest",
                 text="Every registry in bounds is compiled and called under each RTTI flavour, each followed by a second update; for the two-ids-per-class flavours every assignment of aliases to every use of a class id (exhaustive up to 2^10..2^12, patterns beyond) and every alias of every argument. All outcomes equal the model and a digest of all outcomes is identical across flavours.", ref="3/C10"),
+    "C12": dict(engine="E1 regx", technique="bounded-exhaustive exploration of registries with methods of arity 1..4: generated static-offset text parsed and compared with compiler result and installed arrays; static-offset branch of the real resolve; exhaustive single-number perturbations under the debug policy",
+                text="Every registry in bounds: the numbers the real generator writes equal, position by position, what update installed; fed back as static offsets every legal tuple dispatches like the model (release and debug policies); every perturbed number is rejected by the debug consistency check with the right error before a definition runs.", ref="3/C12"),
+    "C13": dict(engine="E1 regx", technique="bounded-exhaustive exploration of lattices x method sets: emitted text parsed, reference decoder (exact consumption, in-place safety), real decoder between guard pages, dispatch after decode vs after update vs model",
+                text="Every registry in bounds (incl. unused classes, first slot != 0, error cells): the emitted structure has non-negative sizes and fitting initialisers; decoding consumes exactly the emitted codes, never overwrites unread input, stays inside the structure (guard pages, ASan build), and afterwards every legal tuple dispatches exactly as after update.", ref="3/C13"),
     "C15": dict(engine="E1 regx", technique="bounded-exhaustive exploration: every registry x every class left out x every place and argument route, on the stock debug policy, with AddressSanitizer as crash/garbage-read monitor",
                 text="Every registry in bounds x each class omitted in turn from its record while still used as base / method parameter / definition parameter (update must report unknown_class_error with its id) or only as the dynamic class of an argument on 8 argument routes incl. exact-type virtual_ptr (error at call/construction, no body run, no crash); final with a wrong dynamic type gives method_table_error.", ref="3/C15"),
     "C17": dict(engine="E1 regx", technique="bounded-exhaustive exploration of registries x all abstract-flag assignments: update report vs exhaustive tuple enumeration by the reference model",
